@@ -71,6 +71,35 @@ def run(case, ctx, rng):
             o4 = c02.build(c, K, T, kbits); o4.enc(B)
             o4.Nr = o4.Nr - 2                              # reduced-round variant on a live object: still a permutation pair
             ctx.eq('dec(enc(B))==B', call(lambda: o4.dec(o4.enc(B))), B, reduced_rounds=True, **det)
+        if not is_exc(e) and (c.startswith('tf') or c.startswith('aes')):
+            # round counts set on a live object through the public Nr: enc and dec still undo each other round for round
+            full = obj.Nr
+            for nr in ((1, 2, 3, 5, 6, 7, 9, full - 1, full - 2, full - 3, full + 1, full + 4) if c.startswith('tf') else (1, 2, full - 1, full - 3)):
+                o5 = c02.build(c, K, T, kbits); o5.Nr = nr
+                ctx.eq('dec(enc(B))==B', call(lambda: o5.dec(o5.enc(B))), B, Nr=nr, **det)
+                ctx.eq('enc(dec(B))==B', call(lambda: o5.enc(o5.dec(B))), B, Nr=nr, **det)
+        if not is_exc(e) and kbits is None:
+            # caller-owned mutable arguments: a key given as a Bits the caller wipes between enc and dec, a block given as a Bits
+            from crysp.bits import Bits
+            kb = Bits(K, bitorder=1)
+            o6 = call(lambda: {'aes': lambda: __import__('crysp.aes', fromlist=['AES']).AES(kb), 'ser': lambda: __import__('crysp.serpent', fromlist=['Serpent']).Serpent(kb)}[c[:3]]()) if c[:3] in ('aes', 'ser') else None
+            if o6 is not None and not is_exc(o6):
+                e6 = call(o6.enc, B)
+                kb.ival = 0; kb.size = 8
+                ctx.eq('dec(enc(B))==B', e6 if is_exc(e6) else call(o6.dec, e6), B, key='a Bits object wiped by the caller between enc and dec', **det)
+                ctx.eq('dec(enc(B))==B', e6, e, key='a Bits object', **det)
+            bo = -1 if c in ('des',) or c.startswith('tdea') else 1        # each cipher's own bytes-to-bits convention
+            blk = Bits(B, bitorder=bo)
+            snap = (blk.ival, blk.size)
+            e7 = call(obj.enc, blk)
+            if not is_exc(e7, 'TypeError', 'AssertionError'):           # (AES takes bytes only)
+                ctx.eq('dec(enc(B))==B', e7, e, block='given as Bits', **det)
+                ctx.eq('dec(enc(B))==B', (blk.ival, blk.size), snap, block='the caller\'s Bits block is left unchanged by enc', **det)
+                ctx.eq('dec(enc(B))==B', call(obj.enc, blk), e, block='the same Bits block encrypted again', **det)
+                cb = Bits(e, bitorder=bo) if not is_exc(e) else None
+                if cb is not None:
+                    ctx.eq('dec(enc(B))==B', call(obj.dec, cb), B, block='ciphertext given as Bits', **det)
+                    ctx.eq('dec(enc(B))==B', (cb.ival, cb.size), (Bits(e, bitorder=bo).ival, 8 * len(e)), block='the caller\'s Bits block is left unchanged by dec', **det)
         # a second object with the same key inverts the first (no per-object state in the inverse)
         if not is_exc(e):
             ctx.eq('dec(enc(B))==B', call(lambda: c02.build(c, K, T, kbits).dec(e)), B, fresh_object=True, **det)
